@@ -41,7 +41,8 @@ def auto_detect_input(prg: Iterable[AST]) -> list[Predicate]:
     derivable_preds: set[Predicate] = set()
     in_body: dict[Predicate, set[int]] = defaultdict(set)
     in_head: dict[Predicate, set[int]] = defaultdict(set)
-    for index, stm in enumerate(prg):
+    # pools hide predicates from the collectors: p(1;2). stands for p(1). p(2).
+    for index, stm in enumerate(chain.from_iterable(x.unpool(condition=True) for x in prg)):
         all_preds.update([pred.pred for pred in predicates(stm)])
         for pred in headderivable_predicates(stm):
             derivable_preds.add(pred.pred)
@@ -63,7 +64,7 @@ def auto_detect_output(prg: Iterable[AST]) -> list[Predicate]:
     given a program return a list of all predicates used in show statements
     """
     output: set[Predicate] = set()
-    for stm in prg:
+    for stm in chain.from_iterable(x.unpool(condition=True) for x in prg):
         if stm.ast_type == ASTType.ShowSignature:
             if stm.name:  # "#show." is a signature without a name: it shows nothing
                 output.add(Predicate(stm.name, stm.arity))
